@@ -49,7 +49,7 @@ THEOREMS = [
     # refusals of the profile setters and of solve(): which inputs raise, at which statement, what is stored then
     'C18.xSetter_accepts_uniform', 'C18.xSetter_accepts_iff', 'C18.xSetter_short', 'C18.xSetter_refuses_nonincreasing', 'C18.xSetter_scale_shift',
     'C18.dSetter_accepts_planar', 'C18.dSetter_empty', 'C18.solve_result_accepted', 'C18.solve_refusal_stages', 'C18.solve_accepts_iff',
-    'C18.setters_refusal',
+    'C18.setters_refusal', 'C18.arctan_normalized_starts_at_zero', 'C18.arctan_normalized_end_length',
 ]
 PARTIAL = {
     'solve never raises the total energy': 'reduced by solve_not_raises_of_descent to the descent property of the minimiser (f(result) <= '
@@ -3390,6 +3390,12 @@ def _apply_op(np, mod, pn, op, st, v, g, x, d, stored):
             x, d = np.array(op['x']), np.array(op['d'])
         akw, x, d = mode_args(op.get('args', 'both') if stored is not None else 'both', np.asarray(x, dtype=float), np.asarray(d, dtype=float), stored)
         x, d = np.array(x, dtype=float), np.array(d, dtype=float)
+        if 'disregistry' not in akw:
+            # the guess solve() starts from IS the profile the object holds (after a load written in other units it may differ
+            # from the saved numbers in the last place): the ends must be exactly THOSE
+            d0 = call(lambda: np.asarray(pn.disregistry, dtype=float).copy())
+            if not isinstance(d0, Raised) and d0.shape == d.shape and np.allclose(d0, d, rtol=1e-12, atol=0.0):
+                d = d0
         r = call(pn.solve, **{k_: np.array(v_).copy() for k_, v_ in akw.items()}, min_method=op.get('method', 'Nelder-Mead'),
                  min_options=dict(op.get('options', {'maxfev': 10})), **kw)
         st.update(op['kw'])
